@@ -54,7 +54,9 @@ class HShape(fm.TimeComponent):
     def _connect(self, start_time):
         push = {}
         if self.k["hasout"] and not self.connector.data_pushed["Out"] and self._cond():
-            push = {"Out": float(1000 * self.idx + self.k["off"])}
+            guess = (self.k.get("refine") and self.k["hasin"] and self.k["pull"]
+                     and not self.connector.all_data_pulled)
+            push = {"Out": float(1000 * self.idx + self.k["off"] + (500 if guess else 0))}
         infos = {"Out": self._info()} if self.k["hasout"] and self.k.get("oprov") else None
         self.try_connect(start_time, push_infos=infos, push_data=push)
 
